@@ -82,7 +82,7 @@ def floors(tier):
             "re:.*@AND\\.R\\.enter": 100, "re:.*@ElseIf\\.R\\.enter": 100, "re:.*@ElseIf\\.L\\.T": 100,
             "re:.*@ElseIf\\.L\\.F": 100, "spelling:direct": 5, "spelling:from": 5,
             "tag:fpred": 5, "tag:cpred": 5, "tag:hastype": 3, "tag:neg>=2": 20, "tag:truth": 20, "tag:in": 20,
-            "tag:has": 20, "re:tag:neg:cmp.*": 60}
+            "tag:has": 20, "re:tag:neg:cmp.*": 60, "domain_kind:E": 100, "domain_kind:Q": 300}
 
 
 def cases(spec, ctx):
@@ -93,14 +93,16 @@ def cases(spec, ctx):
         return
     for i in range(spec["n"]):
         rng = ctx.rng("r", spec["sub"], i)
-        kind = rng.choice(["P", "P", "Q"])
+        kind = rng.choice(["P", "P", "P", "Q", "Q", "E"])
         world = D.random_world(rng, np_=(3, 6), nq=(3, 6))
+        if kind == "E":     # distinct objects that compare equal: results are compared by identity
+            D.add_equal_valued_objects(rng, world, n=(3, 6))
         d = rng.choice([1, 2, 2, 3, 3, 4, 5])
         cond = C.gen_cond(rng, [kind], d)
         form = rng.choice(["entity", "entity", "direct"])
         yield {"k": "rand", "world": world, "kind": kind, "cond": cond, "form": form,
                "how": rng.choice(["let", "let", "from"]), "quant": rng.choice(["an", "an", "a"]),
-               "split": rng.random() < 0.3}
+               "split": rng.random() < 0.3, "times": rng.choice([1, 2, 3]), "caching": rng.random() < 0.8}
 
 
 def check_case(case, ctx):
@@ -115,17 +117,25 @@ def check_case(case, ctx):
     ctx.cls("depth:%d" % C.depth(cond))
     ctx.cls("spelling:" + case.get("form", "entity"))
     ctx.cls("spelling:" + case.get("how", "let"))
+    ctx.cls("domain_kind:" + kind)
     if 0 < len(exp) < n_dom:
         ctx.nontrivial()
+    times = case.get("times", 2)
+    ctx.cls(f"evaluations_of_the_same_query:{times}")
     try:
-        got = H.run_an(world, [kind], cond, [0], form=case.get("form", "entity"), how=case.get("how", "let"),
-                       quant=case.get("quant", "an"), split_top_and=case.get("split", False))[0]
+        gots = H.run_an(world, [kind], cond, [0], form=case.get("form", "entity"), how=case.get("how", "let"),
+                        quant=case.get("quant", "an"), split_top_and=case.get("split", False), times=times,
+                        caching=case.get("caching", True))
     except Exception as e:
         ctx.fail("EXC", f"{type(e).__name__}: {e}", expected=exp)
         return
-    k = H.diff_kind(got, exp, ordered=True)
-    if k:
-        ctx.fail(k, {"expected": exp, "observed": got, "leaf_flag_mismatches": list(M.LEAF_MISMATCHES)})
-    elif M.LEAF_MISMATCHES:
-        ctx.count("leaf.mismatch_in_correct_case")
+    got = gots[0]
+    for n, g in enumerate(gots):
+        k = H.diff_kind(g, exp, ordered=True)
+        if k:
+            ctx.fail(k, {"evaluation_no": n + 1, "expected": exp, "observed": g, "leaf_flag_mismatches": list(M.LEAF_MISMATCHES)})
+            break
+    else:
+        if M.LEAF_MISMATCHES:
+            ctx.count("leaf.mismatch_in_correct_case")
     ctx.sample({"condition": cond, "domain_size": n_dom, "expected": [r[0] for r in exp], "observed": [r[0] for r in got]})
